@@ -127,6 +127,13 @@ impl TaskHandle {
     }
 
     pub(crate) async fn events_snapshot(&self) -> Vec<Event> {
+        #[cfg(feature = "verif")]
+        {
+            let guard = self.events.lock().await;
+            rip_kernel::verif::point("task.history.locked", &self.task_id);
+            return guard.clone();
+        }
+        #[cfg(not(feature = "verif"))]
         self.events.lock().await.clone()
     }
 
